@@ -131,4 +131,4 @@ def run(ctx, rep):
            "no channel access is reachable from the failed-try-lock edge" if not touches else
            "a thread that failed the try-lock goes on to poll/read the channel", ctx.loc(touches[0]) if touches else f.loc)
 
-    K.share(ctx, rep, "c13", lambda o: o.rule in ("R13.1", "R13.4"), "R14.4", floor=6)
+    K.share(ctx, rep, "c13", lambda o: o.rule in ("R13.1", "R13.4") or (o.rule == "R13.3" and "condition" in o.key), "R14.4", floor=6)
